@@ -87,6 +87,8 @@ func (v Value) Build() interface{} {
 type Blob struct {
 	Data   Content `json:"data"`
 	Script Script  `json:"script"`
+	// Skip bytes of Data were consumed by the caller before the reader was handed over; the payload is the rest.
+	Skip int `json:"skip,omitempty"`
 }
 
 // Field is one form field with its values (one SetFormParam call).
@@ -101,7 +103,7 @@ type File struct {
 	Declared string   `json:"declared,omitempty"` // "": the source has no ContentType() method
 	Data     Content  `json:"data"`
 	Script   Script   `json:"script"`
-	// Source: "" a plain reader, "seeker" a reader that also implements io.Seeker, "osfile" a real *os.File.
+	// Source: "" a plain reader, "seeker" a reader that also implements io.Seeker, "osfile" a real *os.File, "named-osfile" a real *os.File wrapped by runtime.NamedReader under the declared name.
 	// Skip bytes of Data were consumed by the caller before the source was handed over (a preamble, a resumed
 	// upload): the content of the file is what is left in the source.
 	Source string `json:"source,omitempty"`
@@ -119,7 +121,7 @@ type Case struct {
 	Method    string      `json:"method"`
 	PresetCT  string      `json:"preset_ct,omitempty"` // form payloads: Content-Type header parameter set by the parameter writer itself
 	Overlap   bool        `json:"overlap,omitempty"` // uploads: a second multipart request is built and sent while this one is half read
-	Kind      string      `json:"kind"`       // nil | value | reader | readcloser | buffer (*bytes.Buffer payload) | bytesreader (*bytes.Reader payload) | form
+	Kind      string      `json:"kind"`       // nil | value | reader | readcloser | buffer (*bytes.Buffer payload) | bytesreader (*bytes.Reader payload) | seekreader | seekreadcloser (readers that implement io.Seeker) | form
 	MediaType string      `json:"media_type"` // the media type the operation chooses
 	Route     string      `json:"route"`      // consumes | empty-then | default: how the choice reaches the runtime
 	Value     *Value      `json:"value,omitempty"`
@@ -150,7 +152,7 @@ func (c Case) hasFiles() bool { return len(c.Files) > 0 }
 // streaming reports whether the body reaches the request as a stream rather than as the runtime's buffer.
 func (c Case) streaming() bool {
 	switch c.Kind {
-	case "reader", "readcloser", "buffer", "bytesreader":
+	case "reader", "readcloser", "buffer", "bytesreader", "seekreader", "seekreadcloser":
 		return true
 	case "form":
 		return c.hasFiles() || c.MediaType == mtMultipart
@@ -203,9 +205,14 @@ func Check(c Case) *kit.Violation {
 	if c.Kind == "value" && c.Value != nil {
 		value = c.Value.Build()
 	}
-	if (c.Kind == "reader" || c.Kind == "readcloser" || c.Kind == "buffer" || c.Kind == "bytesreader") && c.Body != nil {
-		blob = c.Body.Data.Bytes()
-		bodyStream = &stream{data: blob, sc: c.Body.Script}
+	if (c.Kind == "reader" || c.Kind == "readcloser" || c.Kind == "buffer" || c.Kind == "bytesreader" || c.Kind == "seekreader" || c.Kind == "seekreadcloser") && c.Body != nil {
+		full := c.Body.Data.Bytes()
+		skip := c.Body.Skip
+		if skip > len(full) {
+			skip = len(full)
+		}
+		bodyStream = &stream{data: full, sc: c.Body.Script, off: skip}
+		blob = full[skip:]
 	}
 	type wantFile struct {
 		field, base, ctype string
@@ -226,7 +233,7 @@ func Check(c Case) *kit.Violation {
 			nf := namedFile{s: s, name: string(f.Name)}
 			content = content[skip:]
 			ct := f.Declared
-			if f.Source == "osfile" {
+			if f.Source == "osfile" || f.Source == "named-osfile" {
 				if tmpDir == "" {
 					var err error
 					if tmpDir, err = os.MkdirTemp("", "c11up"); err != nil {
@@ -245,11 +252,17 @@ func Check(c Case) *kit.Violation {
 					return kit.Failf("harness: %v", err)
 				}
 				defer of.Close()
-				fileParams[i] = append(fileParams[i], of)
 				n := len(content)
 				if n > 512 {
 					n = 512
 				}
+				if f.Source == "named-osfile" {
+					// the file goes out under the name the caller declares for it, not under its name on disk
+					fileParams[i] = append(fileParams[i], runtime.NamedReader(string(f.Name), of))
+					wantFiles = append(wantFiles, wantFile{string(ff.Name), filepath.Base(string(f.Name)), http.DetectContentType(content[:n]), content, s})
+					continue
+				}
+				fileParams[i] = append(fileParams[i], of)
 				wantFiles = append(wantFiles, wantFile{string(ff.Name), filepath.Base(of.Name()), http.DetectContentType(content[:n]), content, s})
 				continue
 			}
@@ -316,11 +329,19 @@ func Check(c Case) *kit.Violation {
 			return req.SetBodyParam(onlyReader{bodyStream})
 		case "readcloser":
 			return req.SetBodyParam(readCloser{bodyStream})
+		case "seekreader":
+			return req.SetBodyParam(seekReader{bodyStream})
+		case "seekreadcloser":
+			return req.SetBodyParam(seekReadCloser{seekReader{bodyStream}})
 		case "buffer":
 			// the concrete type the client itself uses for its own buffer: a caller's buffer must not be mistaken for it
-			return req.SetBodyParam(bytes.NewBuffer(append([]byte(nil), blob...)))
+			buf := bytes.NewBuffer(append([]byte(nil), bodyStream.data...))
+			buf.Next(len(bodyStream.data) - len(blob))
+			return req.SetBodyParam(buf)
 		case "bytesreader":
-			return req.SetBodyParam(bytes.NewReader(blob))
+			rd := bytes.NewReader(bodyStream.data)
+			_, _ = rd.Seek(int64(len(bodyStream.data)-len(blob)), io.SeekStart)
+			return req.SetBodyParam(rd)
 		}
 		return nil
 	})
@@ -449,7 +470,7 @@ func Check(c Case) *kit.Violation {
 		if rawCT != "" && mt != c.MediaType {
 			return kit.Failf("NIL-PAYLOAD: Content-Type %q with no payload (chosen %q)", rawCT, c.MediaType)
 		}
-	case "reader", "readcloser", "buffer", "bytesreader":
+	case "reader", "readcloser", "buffer", "bytesreader", "seekreader", "seekreadcloser":
 		if !bytes.Equal(sent, blob) {
 			return kit.Failf("READER-PAYLOAD kind=%s script=%+v auth=%d: sent %d bytes %s, payload has %d bytes %s", c.Kind, c.Body.Script, c.Auth, len(sent), clipB(sent), len(blob), clipB(blob))
 		}
